@@ -93,6 +93,12 @@ def gen_c03():
     o = os.path.join(VERIF, "lean", "RSVerif", "Gen", "SrcShards.lean")
     p = subprocess.run([sys.executable, os.path.join(VERIF, "translate", "rs2lean_shards.py"), "/repo", o],
                        stdout=subprocess.PIPE, stderr=subprocess.STDOUT, text=True)
+    if p.returncode != 0:
+        return p.returncode, out + p.stdout
+    out += p.stdout
+    o = os.path.join(VERIF, "lean", "RSVerif", "Gen", "SrcGlue.lean")
+    p = subprocess.run([sys.executable, os.path.join(VERIF, "translate", "rs2lean_glue.py"), "/repo", o],
+                       stdout=subprocess.PIPE, stderr=subprocess.STDOUT, text=True)
     return p.returncode, out + p.stdout
 
 
